@@ -106,6 +106,19 @@ CHECKS["C20"] = dict(
     note="A crash inside a single OS write and file-system durability are outside the claim. Header content is C05.",
     design="DESIGN.md section 4 (C20)")
 
+CHECKS["C10"] = dict(
+    engine="E1 nbsym (numba typed IR of the moment kernels, exact reals + integer overflow obligations) + FP theory on ChannelStats' guarded divisions; z3 (nlsat)",
+    technique="symbolic execution of numba's typed IR of update_moments/compute_online_moments(_basic)/add_online_moments over real-valued symbolic streams for every chunk composition and split; z3 nlsat decides the polynomial identities against the two-pass definitions; typed integer operations yield overflow obligations; IEEE float32/64 terms for the guarded divisions",
+    text="For symbolic streams of length 1..5 (quick) / 1..7 (thorough), every composition into consecutive chunks, 1-2 channels, full and basic "
+         "mode, and every split point followed by the Pebay merge, the values the typed IR computes for count/min/max/m1..m4 are proved equal to "
+         "the two-pass definitions (polynomial identities over the reals, one query per field). Every integer operation of the typed IR of the "
+         "merge and update kernels yields an overflow obligation over the whole int32 count range. One more identical sample keeps a constant "
+         "channel's state. ChannelStats.var/skew/kurtosis are executed over IEEE float32/float64 terms: whenever the guard of a division is true "
+         "its divisor is neither zero nor NaN for any finite moment record.",
+    note="Exact real arithmetic for the recurrences (the float32 accumulation error bound is outside the claim). libm pow(x,1.5) is a trusted "
+         "contract stub. Stream lengths above the bound are outside the claim.",
+    design="DESIGN.md section 4 (C10)")
+
 NOT_APPLICABLE = {}
 
 PENDING = "check not built yet in this round (see DESIGN.md section 8 for the build order); no claim is made"
